@@ -297,9 +297,13 @@ where
                 .await?;
         }
 
+        // Raft §5.3: commitIndex = min(leaderCommit, index of last *new* entry), i.e. the last index this
+        // request proves to match the leader's log. The follower's own last index may belong to a stale
+        // tail that the request does not cover and must not be marked committed.
+        let last_index_covered_by_request = request.prev_log_index + request.entries.len() as u64;
         if let Some(new_commit_index) = Self::if_update_commit_index_as_follower(
             state_snapshot.commit_index,
-            raft_log.last_entry_id(),
+            last_index_covered_by_request.min(raft_log.last_entry_id()),
             request.leader_commit_index,
         ) {
             debug!("new commit index received: {:?}", new_commit_index);
